@@ -1,0 +1,36 @@
+//! Pause points for external verification harnesses (cargo feature `verif`, off by default).
+//!
+//! A harness installs a callback; the router calls it at fixed points of a request worker's life
+//! and after the loop thread has handled a message. The callback may block: that is how a
+//! harness owns the interleaving of the message loop with the per-request worker threads.
+
+use std::sync::{Arc, Mutex};
+
+#[derive(Debug, Clone, PartialEq, Eq)]
+pub enum Point {
+    /// request worker thread started, nothing computed yet
+    WorkerStart,
+    /// the handler returned, the response is not sent yet
+    ResultComputed,
+    /// the response has been handed to the connection
+    ResponseSent,
+    /// the worker has dropped its handle on the server state and is about to end
+    WorkerExit,
+    /// the loop thread finished handling one incoming message
+    MessageHandled { panicked: bool },
+}
+
+pub type Hook = Arc<dyn Fn(Point, Option<String>) + Send + Sync>;
+
+static HOOK: Mutex<Option<Hook>> = Mutex::new(None);
+
+pub fn set_hook(hook: Option<Hook>) {
+    *HOOK.lock().unwrap() = hook;
+}
+
+pub fn at(point: Point, request_id: Option<String>) {
+    let hook = HOOK.lock().unwrap().clone();
+    if let Some(hook) = hook {
+        hook(point, request_id);
+    }
+}
